@@ -62,9 +62,9 @@ def _dominating_tests(cfg, nd):
 
 
 def run(ck):
-    ck.rule("R1", "phase order evaluate -> test(read) -> commit memory -> test(write) -> commit registers -> test(cpu) per back end", floor=8)
-    ck.rule("R2", "the fault branch restores PC to the instruction's offset, reports the exception and leaves", floor=6)
-    ck.rule("R3", "restricted fault mask and constants agree across back ends and with vm_mngr.h", floor=7)
+    ck.rule("R1", "phase order evaluate -> test(read) -> commit memory -> test(write) -> commit registers -> test(cpu) per back end", floor=7)
+    ck.rule("R2", "the fault branch restores PC to the instruction's offset, reports the exception and leaves", floor=3)
+    ck.rule("R3", "restricted fault mask and constants agree across back ends and with vm_mngr.h", floor=4)
 
     cg = ck.repo.mod(CG)
     # --------------------------------------------------------------- R1: C back end
@@ -374,11 +374,11 @@ def run(ck):
     import re as _re
     from rules import c24 as _c24
     tu24 = cast.load(ck.repo, "miasm/jitter/vm_mngr.c")
-    ck.rule("R5", "each page an emulated access touches is looked up (faulting when unmapped) and permission-tested before its bytes are used", floor=8)
+    ck.rule("R5", "each page an emulated access touches is looked up (faulting when unmapped) and permission-tested before its bytes are used", floor=5)
     reads = sorted(n for n in tu24.funcs if _re.match(r"vm_MEM_LOOKUP_\d+$", n))
     writes = sorted(n for n in tu24.funcs if _re.match(r"vm_MEM_WRITE_\d+$", n))
     _c24.page_pointer_rules(ck, tu24, "R5", _c24._closure(tu24, reads), _c24._closure(tu24, writes), tu24.macro_int("PAGE_READ"), tu24.macro_int("PAGE_WRITE"))
-    ck.rule("R6", "a typed access through the page pointer lies inside the page, so an access reaching past a mapped page faults instead of being performed (shared with C24-R7)", floor=2)
+    ck.rule("R6", "a typed access through the page pointer lies inside the page, so an access reaching past a mapped page faults instead of being performed (shared with C24-R7)", floor=1)
     from rules.c24 import typed_access_bound_rules
     typed_access_bound_rules(ck, tu, "R6")
 
